@@ -186,15 +186,24 @@ def run_path(contract, func, loader, contracts_by_target, variant, prefix):
             outcome = ("return", result)
         except PyRaise as e:
             outcome = ("raise", e.cls, e.msg)
+            if getattr(e, "origin", "model") == "model":
+                # the exception comes from the engine's reading of Python / numpy semantics, not from a raise statement of the code:
+                # obligations stated about this outcome are believed only if the failure is reproduced on the real code
+                ctx.model_raise = f"{e.cls}: {e.msg}"
         pr.outcome = outcome[:2]
         # reachability cover: the path condition when the function finished, without the goals of earlier obligations
         # (they are assumed after being recorded; if one of them is refutable that is a failed obligation, not vacuity)
         gids = ctx.__dict__.get("goal_ids", set())
         pr.cover = [f for f in ctx.pc if f.get_id() not in gids]
+        v.n_obligations_before_post = len(ctx.obligations)
         contract.post(v, variant, v.env, outcome)
         if hasattr(contract, "mustfail") and outcome[0] == "return":
             contract.mustfail(v, variant, v.env, outcome)
-        for ob in ctx.obligations:
+        n_before_post = getattr(v, "n_obligations_before_post", None)
+        for oi, ob in enumerate(ctx.obligations):
+            if getattr(ctx, "model_raise", None) and n_before_post is not None and oi >= n_before_post:
+                ob.meta.setdefault("spurious_risk", f"the path ends in an exception raised by the engine's model ({ctx.model_raise}), not by a raise "
+                                                     "statement of the code; believed only if a failure is reproduced on the real code")
             ob.meta.setdefault("inputs", v.inputs)
             ob.meta.setdefault("ghost_defs", list(getattr(ctx, "ghost_defs", [])))
     except PathEnd:
